@@ -225,6 +225,41 @@ theorem create_if_needed_short_data_no_panic
       rw [hia]
       exact ⟨_, rfl⟩
 
+/-- `needed_init_reflects_last_validation`: after ANY history of validations of one wrapper (or of
+clones of it), `needed_init()` is the answer of the LAST validation when that one succeeded —
+whatever earlier validations answered — and a failed validation leaves the flag where it was.
+In particular: created by the first `CreateIfNeeded`, validated again ⇒ `needed_init() = false`. -/
+theorem needed_init_reflects_last_validation (h : Hist) (qs : List Request) (q : Request) :
+    let before := validateMany env ty tgt h qs
+    let after := validateMany env ty tgt h (qs ++ [q])
+    let r := (initValidate env ty q.ifNeeded tgt q.fa q.enc before.st).1
+    after.answers = before.answers ++ [r] ∧
+    (∀ b, r = .ok b → after.flag = b) ∧
+    ((∀ b, r ≠ .ok b) → after.flag = before.flag) := by
+  simp only [validateMany, List.foldl_append, List.foldl_cons, List.foldl_nil, validateOnce]
+  refine ⟨trivial, ?_, ?_⟩
+  · intro b hb; simp only [hb, flagAfter]
+  · intro hn
+    generalize (initValidate env ty q.ifNeeded tgt q.fa q.enc
+      (List.foldl (validateOnce env ty tgt) h qs).st).1 = r at hn
+    cases r with
+    | ok b => exact absurd rfl (hn b)
+    | err e => rfl
+    | panic => rfl
+
+/-- Validating an initialized account of this type again with `CreateIfNeeded` — e.g. right after the
+validation that created it — reports "not newly initialized", whatever the flag was before. -/
+theorem revalidation_reports_not_needed (h : Hist) (a : Option (List (List Nat))) (f : Funder)
+    (q : Request) (hq : q.ifNeeded = true)
+    (hseeds : initSeeds env tgt = .ok a) (hf : q.fa.resolve = some f)
+    (hsigner : ∀ k, tgt = .signer k → env.isSigner k = true)
+    (hprog : env.program ≠ systemId) (hdisc : allZero ty.disc = false)
+    (howner : (h.st.w tgt.key).owner = env.program) (hlen : ty.W ≤ (h.st.w tgt.key).data.length)
+    (hd : (h.st.w tgt.key).data.take ty.W = ty.disc) :
+    (validateOnce env ty tgt h q).flag = false ∧ (validateOnce env ty tgt h q).st = h.st := by
+  have := create_if_needed_untouched env ty tgt q.fa q.enc h.st a f hseeds hf hsigner hprog hdisc howner hlen hd
+  simp [validateOnce, hq, this, flagAfter]
+
 /-- `seeded_create_signed_by_seeds`: for a seeded target whose seeds derive `(key, bump)`, every
 CPI issued by the validation carries exactly the recorded `seeds_with_bump` as the account's signer
 seeds — `CreateAccount`: funder seeds (if any) then the account seeds; `Transfer`: the funder seeds
